@@ -19,65 +19,95 @@ type evkp struct{ lq, lp, b2 int }
 func evkParamsOf(ch mp.Chain, tier string) []evkp {
 	var r []evkp
 	switch ch.Name {
-	case "mid", "mid5": // 3 Q, 2 P: RNS decomposition with alpha=2 (levelP=1, #P does not divide #Q) or alpha=1 (levelP=0), base two only with levelP=0
-		r = []evkp{{lqMax, lpMax, 0}, {lqMax, 0, 0}, {lqMax, 0, 7}, {lqMax, 0, 16}, {0, lpMax, 0}, {0, 0, 16}, {1, lpMax, 0}}
+	case "mid", "mid5", "midci": // 3 Q, 2 P: RNS decomposition with alpha=2 (levelP=1, #P does not divide #Q) or alpha=1 (levelP=0), base two only with levelP=0
+		r = []evkp{{lqMax, lpMax, 0}, {lqMax, 0, 0}, {lqMax, 0, 7}, {lqMax, 0, 16}, {0, lpMax, 0}, {0, 0, 16}, {1, lpMax, 0},
+			{1, 0, 7}, {lqMax, lpMax, 16}, {lqMax, -1, 7}, {lqMax, -1, 16}}
 		if tier == "thorough" {
-			r = append(r, evkp{1, 0, 7}, evkp{lqMax, lpMax, 16}, evkp{lqMax, -1, 7}, evkp{lqMax, -1, 16})
+			r = append(r, evkp{lqMax, -1, 0}, evkp{0, -1, 7}, evkp{1, 0, 0}, evkp{0, 0, 0})
 		}
-	case "mixed", "mixup": // unequal prime sizes, 1 P: the per-modulus digit counts differ for base two 7 and 16
-		r = []evkp{{lqMax, lpMax, 0}, {lqMax, lpMax, 7}, {lqMax, lpMax, 16}, {1, lpMax, 16}, {0, lpMax, 7}}
+	case "mixed", "mixup", "mixedci": // unequal prime sizes, 1 P: the per-modulus digit counts differ for base two 7 and 16
+		r = []evkp{{lqMax, lpMax, 0}, {lqMax, lpMax, 7}, {lqMax, lpMax, 16}, {1, lpMax, 16}, {0, lpMax, 7}, {lqMax, -1, 16}, {2, lpMax, 7}}
 		if tier == "thorough" {
-			r = append(r, evkp{lqMax, -1, 16}, evkp{2, lpMax, 7})
+			r = append(r, evkp{lqMax, -1, 7}, evkp{lqMax, -1, 0}, evkp{1, lpMax, 0}, evkp{2, -1, 16})
 		}
-	case "nop": // no auxiliary modulus: LevelP = -1
-		r = []evkp{{lqMax, -1, 0}, {lqMax, -1, 7}, {lqMax, -1, 16}, {0, -1, 16}}
+	case "nop", "nopci": // no auxiliary modulus: LevelP = -1
+		r = []evkp{{lqMax, -1, 0}, {lqMax, -1, 7}, {lqMax, -1, 16}, {0, -1, 16}, {0, -1, 0}}
 	case "big":
-		r = []evkp{{lqMax, lpMax, 0}, {lqMax, lpMax, 16}}
+		r = []evkp{{lqMax, lpMax, 0}, {lqMax, lpMax, 16}, {0, lpMax, 7}}
 	}
 	return r
+}
+
+// galElsOf: the Galois elements exercised on a chain. Standard ring of degree 16: the group (Z/32)^* (all of it in
+// thorough and on the default chain in quick). Conjugate-invariant ring: X -> X^g acts on Z[X+X^-1]; g and -g give
+// the same map and the library indexes the maps by the representative in <5> (g = 1 mod 4): 5, 25, 5^3 = -3, 9;
+// with all: the whole subgroup <5> modulo 4N.
+func galElsOf(ch mp.Chain, all bool) []uint64 {
+	nth := uint64(1) << uint(ch.LogN+1)
+	if ch.CI {
+		nth <<= 1
+		if !all {
+			return []uint64{5, 25, nth - 3, 9}
+		}
+		var gs []uint64
+		for g := uint64(1); g < nth; g += 4 {
+			gs = append(gs, g)
+		}
+		return gs
+	}
+	if !all {
+		return quickGalEls
+	}
+	var gs []uint64
+	for g := uint64(1); g < nth; g += 2 {
+		gs = append(gs, g)
+	}
+	return gs
 }
 
 func catalogue(tier string) []cfg {
 	th := tier == "thorough"
 	var r []cfg
-	chains := []mp.Chain{mp.ChainMid, mp.ChainMixed, mp.ChainMixup, mp.ChainNoP}
-	if th {
-		chains = append(chains, mp.ChainBig)
-	}
+	chains := []mp.Chain{mp.ChainMid, mp.ChainMixed, mp.ChainMixup, mp.ChainNoP, mp.ChainBig, mp.ChainMidCI, mp.ChainMixedCI, mp.ChainNoPCI}
 	fullMax := 4
-	vb := 1 // deviation bound on merge variants
 	if th {
 		fullMax = 5
 	}
-	bnd := func(n int) int {
+	bnd := func(n int) int { // deviation bound on the non-free axes (merge variants, instances, history)
 		if th && n <= 4 {
 			return 2
 		}
-		return vb
+		return 1
 	}
 
-	// CPK: every chain, both ciphertext domains, 1..fullMax parties in full; 6..8 leftdeep + adjacent
+	// CPK: every chain, both ciphertext domains, 1..fullMax parties in full (one more on the default chain)
 	for _, ch := range chains {
 		for _, ntt := range []bool{true, false} {
-			for n := 1; n <= fullMax; n++ {
+			top := fullMax
+			if ch.Name == "mid" && ntt {
+				top++
+			}
+			for n := 1; n <= top; n++ {
 				if !ntt && n != 3 {
 					continue
 				}
-				r = append(r, cfg{proto: "cpk", chain: ch, ntt: ntt, n: n, mode: mp.Full, bound: bnd(n)})
+				b := bnd(n)
+				if n == 6 {
+					b = 0 // 2700 histories: plain merges only
+				}
+				r = append(r, cfg{proto: "cpk", chain: ch, ntt: ntt, n: n, mode: mp.Full, bound: b})
 			}
 		}
 	}
 	r = append(r, cfg{proto: "cpk", chain: mp.ChainMid, ntt: true, n: 3, mode: mp.Full, bound: bnd(3), crs: 1})
-	big := []int{6, 8}
+	// 6..8 parties: left-deep fold orders within `ld` departures from index order (the cap), and every tree shape in index order
+	ld := 2
 	if th {
-		big = []int{6, 7, 8}
+		ld = 3
 	}
-	for _, n := range big {
-		ld := 2
-		if th {
-			ld = 3
-		}
+	for _, n := range []int{6, 7, 8} {
 		r = append(r, cfg{proto: "cpk", chain: mp.ChainMid, ntt: true, n: n, mode: mp.LeftDeep, bound: ld})
+		r = append(r, cfg{proto: "cpk", chain: mp.ChainMidCI, ntt: true, n: n, mode: mp.LeftDeep, bound: ld - 1})
 		if n <= 7 || th {
 			r = append(r, cfg{proto: "cpk", chain: mp.ChainMixed, ntt: true, n: n, mode: mp.Adjacent, bound: 0})
 		}
@@ -86,41 +116,47 @@ func catalogue(tier string) []cfg {
 	// RLK (round-1 lattice with round 2 folded in index order, and the converse), EVK, GAL x evk parameters
 	for _, ch := range chains {
 		for _, e := range evkParamsOf(ch, tier) {
-			ns := []int{2, 3}
-			if th {
+			ns := []int{1, 2, 3}
+			if th || ch.Name == "mid" || ch.Name == "mixed" || ch.Name == "midci" {
 				ns = []int{1, 2, 3, 4}
+			}
+			if th && ch.Name == "mid" && e.lq == lqMax && e.b2 != 7 {
+				ns = append(ns, 5)
 			}
 			for _, n := range ns {
 				for _, proto := range []string{"rlk1", "rlk2", "evk"} {
 					r = append(r, cfg{proto: proto, chain: ch, ntt: true, n: n, mode: mp.Full, bound: bnd(n), lq: e.lq, lp: e.lp, b2: e.b2})
 				}
 			}
-			// GAL on every evk parameterisation with one rotation and the conjugation
-			for _, g := range []uint64{5, 31} {
+			// GAL on every evk parameterisation with a rotation and an element of the other coset
+			gs := galElsOf(ch, false)
+			for _, g := range []uint64{gs[0], gs[len(gs)-2]} {
 				r = append(r, cfg{proto: "gal", chain: ch, ntt: true, n: 3, mode: mp.Full, bound: bnd(3), lq: e.lq, lp: e.lp, b2: e.b2, galEl: g})
 			}
 		}
 	}
-	// one 4-party (quick) / 5-party (thorough) run of each key protocol, non-NTT ciphertext domain, second CRS
+	// larger party counts of each key protocol: full lattice at fullMax, non-NTT ciphertext domain, second CRS; capped left-deep at 6 and 8
 	for _, proto := range []string{"rlk1", "rlk2", "evk", "gal"} {
-		r = append(r, cfg{proto: proto, chain: mp.ChainMid, ntt: false, n: fullMax, mode: mp.Full, bound: vb, lq: lqMax, lp: lpMax, galEl: 5, crs: 1})
-		r = append(r, cfg{proto: proto, chain: mp.ChainMixed, ntt: true, n: 6, mode: mp.LeftDeep, bound: 2, lq: lqMax, lp: lpMax, b2: 16, galEl: 5})
+		r = append(r, cfg{proto: proto, chain: mp.ChainMid, ntt: false, n: fullMax, mode: mp.Full, bound: 1, lq: lqMax, lp: lpMax, galEl: 5, crs: 1})
+		r = append(r, cfg{proto: proto, chain: mp.ChainMixed, ntt: true, n: 6, mode: mp.LeftDeep, bound: ld, lq: lqMax, lp: lpMax, b2: 16, galEl: 5})
+		r = append(r, cfg{proto: proto, chain: mp.ChainNoP, ntt: true, n: 8, mode: mp.LeftDeep, bound: ld - 1, lq: lqMax, lp: -1, b2: 7, galEl: 5})
+		r = append(r, cfg{proto: proto, chain: mp.ChainMixedCI, ntt: true, n: 7, mode: mp.LeftDeep, bound: ld - 1, lq: lqMax, lp: lpMax, b2: 0, galEl: 5})
 	}
-	// GAL: Galois elements of the group (all 16 in thorough, covering subset in quick) on the default parameters
-	gs := quickGalEls
-	if th {
-		gs = nil
-		for g := uint64(1); g < 32; g += 2 {
-			gs = append(gs, g)
+	// GAL: every Galois element of the group on the default parameters; in thorough also on the unequal-size chain
+	for _, ch := range []mp.Chain{mp.ChainMid, mp.ChainMixed, mp.ChainMidCI, mp.ChainMixedCI, mp.ChainNoPCI} {
+		if ch.Name == "mixed" && !th {
+			continue
 		}
-	}
-	for _, g := range gs {
-		if g == 5 || g == 31 {
-			continue // already above
+		b2 := 0
+		if ch.Name == "mixed" || ch.Name == "mixedci" {
+			b2 = 16
 		}
-		r = append(r, cfg{proto: "gal", chain: mp.ChainMid, ntt: true, n: 3, mode: mp.Full, bound: bnd(3), lq: lqMax, lp: lpMax, galEl: g})
-		if th {
-			r = append(r, cfg{proto: "gal", chain: mp.ChainMixed, ntt: true, n: 2, mode: mp.Full, bound: 2, lq: lqMax, lp: lpMax, b2: 16, galEl: g})
+		lp := lpMax
+		if len(ch.PBits) == 0 {
+			lp, b2 = -1, 7
+		}
+		for _, g := range galElsOf(ch, true) {
+			r = append(r, cfg{proto: "gal", chain: ch, ntt: true, n: 2, mode: mp.Full, bound: bnd(2), lq: lqMax, lp: lp, b2: b2, galEl: g, crs: 1})
 		}
 	}
 	return r
